@@ -34,7 +34,7 @@ def fit(ctx, data, mo, st):
             'class': type(res).__name__}
 
 
-def _consistency(res):
+def _consistency(res, data=None):
     out = {}
 
     def attempt(key, fn):
@@ -56,7 +56,10 @@ def _consistency(res):
     attempt('scatterer', lambda: res.scatterer.parameters)
     attempt('guess_scatterer', lambda: res.guess_scatterer.parameters)
     attempt('forward_at_pars', lambda: res.forward(res._parameters))
-    attempt('model_forward_grid', lambda: None)
+    # the model's own forward calculation on the image that was fitted
+    attempt('model_forward_grid',
+            lambda: None if data is None
+            else m.forward(dict(res.parameters), data))
     attempt('lnposterior_at_pars',
             lambda: m.lnposterior(dict(res.parameters), res.data))
     attempt('data', lambda: res.data)
@@ -68,9 +71,10 @@ def _consistency(res):
 
 
 @op('result_check', lazy=('res',))
-def result_check(ctx, res, order_seed=0):
+def result_check(ctx, res, order_seed=0, data=None):
     """Query everything a result offers (lazy caches fill on the way)."""
-    return _consistency(val(ctx, res))
+    return _consistency(val(ctx, res),
+                        val(ctx, data) if data is not None else None)
 
 
 @op('result_query', lazy=('res',))
